@@ -52,10 +52,13 @@ def check_ctor(model, R):
     if isinstance(v, ast.Name):
         flagname = v.id
         binds = [n for n in body_walk(f.node) if isinstance(n, ast.Assign) and any(isinstance(t, ast.Name) and t.id == v.id for t in n.targets)]
-        if len(binds) != 1:
+        if not binds and v.id in f.params:
+            expr = v            # the requested flag itself is stored
+        elif len(binds) != 1:
             R.incomplete_at('C07.CTOR', f.qualname, 'flag %s has %d bindings' % (v.id, len(binds)))
             return
-        expr = binds[0].value
+        else:
+            expr = binds[0].value
     bad = []
     try:
         for req, mode in itertools.product((False, True), repeat=2):
